@@ -269,6 +269,8 @@ def _after_call(t, st):
         st[x] = v
     elif last in ("ok_or", "ok_or_else") and v and "option::Option" in tg:
         st[x] = "Ok" if v == "Some" else "Err"
+    elif last in ("ok", "err") and v and "result::Result::<T, E>" in tg:
+        st[x] = "Some" if (v == "Ok") == (last == "ok") else "None"
     elif last == "from_residual":
         if "std::result::Result" in tg.split(" as ")[0]:
             st[x] = "Err"
